@@ -68,11 +68,17 @@ func c07Run(t *testing.T, ops []string, o *Out) {
 			writers = map[uint32]interceptor.RTPWriter{}
 			retired = map[uint32][]interceptor.RTPWriter{} // handles of earlier bindings, per SSRC, oldest first
 		)
+		// every packet handed to the RTCP writer is the writer's (it may queue it): kept by pointer and re-rendered
+		// after every later op, before Close and after Close (retain_test.go)
+		defer o.EndKept()
 		defer func() {
+			o.CheckKeptAll()
 			if icpt != nil {
 				_ = icpt.Close()
+				synctest.Wait()
 			}
 		}()
+		nWritten := 0
 		flush := func() {
 			mu.Lock()
 			ps := pending
@@ -84,6 +90,7 @@ func c07Run(t *testing.T, ops []string, o *Out) {
 			}
 		}
 		for _, op := range ops {
+			o.CheckKept()
 			name, m := kv(op)
 			need := func(keys ...string) bool {
 				for _, k := range keys {
@@ -121,6 +128,8 @@ func c07Run(t *testing.T, ops []string, o *Out) {
 						mu.Lock()
 						defer mu.Unlock()
 						for _, p := range pkts {
+							nWritten++
+							o.KeepRTCP(fmt.Sprintf("written#%d", nWritten), p)
 							if sr, ok := p.(*rtcp.SenderReport); ok {
 								pending = append(pending, sr)
 							}
